@@ -139,6 +139,65 @@ Proof.
   - intros Es. rewrite E0 in Es. discriminate.
 Qed.
 
+(* ---------- dependency responses ---------- *)
+Lemma sadd_mem a s : smem a s = true -> sadd a s = s.
+Proof. intros H. unfold sadd. rewrite H. reflexivity. Qed.
+
+Lemma sdel_notmem a s : smem a s = false -> sdel a s = s.
+Proof.
+  unfold smem, sdel. induction s as [|x t IH]; [reflexivity|]. cbn [existsb filter]. intros H.
+  apply orb_false_iff in H. destruct H as [H1 H2]. rewrite N.eqb_sym in H1. rewrite H1. cbn [negb]. rewrite IH by exact H2. reflexivity.
+Qed.
+
+Lemma desired_step s o : stuck s = false ->
+  desired (dstep false s o) = match o with DSubscribe a => sadd a (desired s) | DUnsubscribe a => sdel a (desired s) | _ => desired s end.
+Proof.
+  intros St. unfold dstep. rewrite St. destruct o as [a|a| | |].
+  - destruct (smem a (desired s)) eqn:E; [rewrite sadd_mem by exact E; reflexivity|]. unfold enqueue. cbn [andb]. destruct (stream s); reflexivity.
+  - destruct (smem a (desired s)) eqn:E; [|rewrite sdel_notmem by exact E; reflexivity]. unfold enqueue. cbn [andb]. destruct (stream s); reflexivity.
+  - destruct (stream s); reflexivity.
+  - reflexivity.
+  - destruct (stream s); [|reflexivity]. destruct (pending s); [reflexivity|]. destruct (coalesce _). reflexivity.
+Qed.
+
+Lemma desired_subs l : forall s, DInv s -> DInv (fold_left (dstep false) (map DSubscribe l) s) /\
+  desired (fold_left (dstep false) (map DSubscribe l) s) = fold_left (fun acc a => sadd a acc) l (desired s).
+Proof.
+  induction l as [|a t IH]; intros s I; [split; [exact I | reflexivity]|]. cbn [map fold_left].
+  destruct (IH _ (dstep_inv s (DSubscribe a) I)) as [I2 E]. split; [exact I2|]. rewrite E, (desired_step s _ (proj1 I)). reflexivity.
+Qed.
+
+Lemma desired_unsubs l : forall s, DInv s -> DInv (fold_left (dstep false) (map DUnsubscribe l) s) /\
+  desired (fold_left (dstep false) (map DUnsubscribe l) s) = fold_left (fun acc a => sdel a acc) l (desired s).
+Proof.
+  induction l as [|a t IH]; intros s I; [split; [exact I | reflexivity]|]. cbn [map fold_left].
+  destruct (IH _ (dstep_inv s (DUnsubscribe a) I)) as [I2 E]. split; [exact I2|]. rewrite E, (desired_step s _ (proj1 I)). reflexivity.
+Qed.
+
+Lemma desired_responses rs : forall s, DInv s -> DInv (fold_left (dstep false) (dep_history rs) s) /\
+  desired (fold_left (dstep false) (dep_history rs) s) = fold_left dep_apply rs (desired s).
+Proof.
+  induction rs as [|r t IH]; intros s I; [split; [exact I | reflexivity]|].
+  change (dep_history (r :: t)) with ((map DSubscribe (fst r) ++ map DUnsubscribe (snd r)) ++ dep_history t).
+  rewrite !fold_left_app.
+  destruct (desired_subs (fst r) s I) as [I1 E1]. destruct (desired_unsubs (snd r) _ I1) as [I2 E2].
+  destruct (IH _ I2) as [I3 E3]. split; [exact I3|]. rewrite E3, E2, E1. reflexivity.
+Qed.
+
+(* any history, then any sequence of dependency responses, then one flush on a live stream: the server has been told to
+   watch exactly the dependency set the responses leave *)
+Theorem dependency_responses l0 rs sv :
+  stream (drun false (l0 ++ dep_history rs ++ [DFlush])) = Some sv ->
+  same_set sv (fold_left dep_apply rs (desired (drun false l0))).
+Proof.
+  intros Es. pose proof (one_flush_converges (l0 ++ dep_history rs) sv) as H. rewrite <- app_assoc in H. specialize (H Es).
+  intros x. rewrite (H x). f_equal.
+  assert (Hd : desired (drun false (l0 ++ dep_history rs ++ [DFlush])) = desired (drun false (l0 ++ dep_history rs))).
+  { rewrite app_assoc. unfold drun. rewrite (fold_left_app _ (l0 ++ dep_history rs) [DFlush]). cbn [fold_left].
+    apply desired_step. exact (never_stuck (l0 ++ dep_history rs)). }
+  rewrite Hd. unfold drun. rewrite fold_left_app. exact (proj2 (desired_responses rs _ (drun_inv l0))).
+Qed.
+
 (* ---------- the code as it was ---------- *)
 Definition seventeen : list dop := map (fun i => DSubscribe (N.of_nat i)) (seq 0 17).
 Example blocks_holding_the_lock_refuted : stuck (drun true (seventeen ++ [DStreamUp])) = true /\ stream (drun true (seventeen ++ [DStreamUp])) = None.
